@@ -274,7 +274,9 @@ func (c *Client) Lookup(path, vers string) (lines []string, err error) {
 			c.ops.WriteCache(file, data)
 		}
 
-		return cached{data, nil}
+		// Keep only the validated record text: the rest of the response is
+		// the signed tree head, whose text may carry extra lines.
+		return cached{text, nil}
 	}).(cached)
 	if result.err != nil {
 		return nil, result.err
